@@ -148,9 +148,11 @@ def sweep_case(ctx, case, hexe, dexe, bb, work, ci, quick):
         if structural:
             mm = first_mismatch(base[x], base[y], rec_struct)
             if mm:
-                key = KEY_PZ if (x in "PR" and y in "TA" and explained_by_sign_quirk(base[x], base[y], M)) else None
+                key = None      # (the probing unigram sign-bit quirk is repaired by repo patch 60)
+                quirk = x in "PR" and y in "TA" and explained_by_sign_quirk(base[x], base[y], M)
                 report("six-way: %s and %s differ structurally" % (lmq.NAMES[x], lmq.NAMES[y]),
-                       {"pair": [x, y], "query": mm[0], "pos": mm[1], "a": mm[2], "b": mm[3]}, key=key)
+                       {"pair": [x, y], "query": mm[0], "pos": mm[1], "a": mm[2], "b": mm[3],
+                        "explained_by_unigram_sign_quirk": quirk}, key=key)
                 if not key:
                     continue
         quant = (x in "QB") != (y in "QB")
